@@ -126,6 +126,15 @@ func init() {
 		Funcs:   poolFuncs(),
 		Select:  func(o *govc.Oblig) bool { return !countObligation(o) },
 		Trusted: poolTrusted,
+		// constructors whose address iteration the verifier cannot reach: bounded stand-ins on the real code
+		BoundedChecks: []BoundedCheck{
+			{ID: "pppoe.NewIPPool", Pkg: "github.com/codelaboratoryltd/bng/pkg/pppoe", File: "pppoe_NewIPPool.go",
+				Bound: "every IPv4 network /24../30 at three bases, every gateway position (each host, network, broadcast, outside)",
+				Claim: "free list = the hosts without the gateway, duplicate-free, never network / broadcast address; isBroadcast agrees with the arithmetic definition"},
+			{ID: "pool.newLocalPool", Pkg: "github.com/codelaboratoryltd/bng/pkg/pool", File: "pool_generateAvailableIPs.go",
+				Bound: "every IPv4 network /22../30 at three bases, 7 gateway positions: 189 configurations",
+				Claim: "free list = the hosts without the gateway, duplicate-free, never network / broadcast address"},
+		},
 		Undecided: []string{
 			"DHCPv4 pool and DHCPv6 address/prefix pools are decided under C02 (same invariant shape: free list pairwise distinct, disjoint from the bindings, bindings injective)",
 			"prefix / address arithmetic (index <-> IP bytes: addIPOffset, ipOffset, getPrefixByIndex, EpochBitmapAllocator.indexToIP / ipToIndex, the offset addition of nexus allocateFromPool) is under frame / range contracts only: the claim is at the level of indices (inside the pool, injective ownership), the byte-level arithmetic is not decided",
